@@ -738,7 +738,10 @@ def collect(repo):
     defaults_struct = sb.class_struct(dcls.DefaultSettings)
 
     # object classes: style class, families
-    classes = list(all_subclasses(basegeo))
+    # only the library's own classes, in a canonical order: other checks define BaseSource subclasses in their
+    # processes, and registration order depends on import order -- the generated text must not
+    classes = sorted((c for c in all_subclasses(basegeo) if c.__module__.startswith("magpylib.")),
+                     key=lambda c: (c.__module__, c.__name__))
     style_classes = {}
     rows = []
     fwd = []
